@@ -228,10 +228,10 @@ def run(ctx):
     # directed: the commit edges on which the recursive save meets an object already being saved
     start("loop", lambda: edges(ctx, "Realm_loop.cfg"))
     re_, rx, rs = par([lambda: edges(ctx, "Realm_qe.cfg"), lambda: edges(ctx, "Realm_xq.cfg"),
-                       lambda: simulate(ctx, 40 if quick else 1000)])
+                       lambda: simulate(ctx, 40 if quick else 600)])
     ctx.cov["edges_emitted"] = len(re_.traces) + len(rx.traces)
     behs = []
-    for r, nq, nt in ((re_, 80, 5000), (rx, 40, 1500)):
+    for r, nq, nt in ((re_, 80, 3000), (rx, 40, 1000)):
         eb = vlib.dedup_prefix(r.traces)
         eb.sort(key=lambda b: json.dumps(b, sort_keys=True))
         n = nq if quick else nt
